@@ -52,6 +52,7 @@ static inline myth_thread_t get_new_myth_thread_struct_desc(myth_running_env_t e
 #endif
   void * v_ret = myth_freelist_pop(&env->freelist_desc);
   if (v_ret){
+    MYTH_VERIF_EV4("DescAlloc", env->rank, VD(v_ret), VL(&((myth_thread_t)v_ret)->lock), 0);
     return v_ret;
   } else {
     //Allocate
@@ -92,6 +93,7 @@ static inline myth_thread_t get_new_myth_thread_struct_desc(myth_running_env_t e
     env->prof_data.daddlist_cycles += t3 - t2;
 #endif
   }
+  MYTH_VERIF_EV4("DescAlloc", env->rank, VD(ret), VL(&ret->lock), 1);
   return ret;
 #else
   myth_thread_t ret;
@@ -174,10 +176,12 @@ th_ptr -> 4080-4087:
     th_ptr += size_in_bytes - (sizeof(void*) * 2);
     uintptr_t *blk_size = (uintptr_t*) (th_ptr + sizeof(void*));
     *blk_size = size_in_bytes;
+    MYTH_VERIF_EV6("StackAlloc", env->rank, VS(th_ptr), VA(th_ptr + sizeof(void*) * 2 - size_in_bytes), VA(th_ptr + sizeof(void*) * 2), 2, MYTH_MALLOC_SIZE_TO_INDEX(size_in_bytes));
     return th_ptr;
   }
   void * ret = myth_freelist_pop(&env->freelist_stack);
   if (ret) {
+    MYTH_VERIF_EV6("StackAlloc", env->rank, VS(ret), VA((char*)ret + sizeof(void*) * 2 - g_attr.stacksize), VA((char*)ret + sizeof(void*) * 2), 0, 0);
     return ret;
   } else {
     //Allocate
@@ -229,6 +233,7 @@ th_ptr -> 4080-4087:
     env->prof_data.saddlist_cycles += t3 - t2;
 #endif /* MYTH_ALLOC_PROF */
   }
+  MYTH_VERIF_EV6("StackAlloc", env->rank, VS(ret), VA((char*)ret + sizeof(void*) * 2 - g_attr.stacksize), VA((char*)ret + sizeof(void*) * 2), 1, 0);
   return ret;
 #else
   return NULL;
@@ -274,6 +279,7 @@ static inline void free_myth_thread_struct_desc(myth_running_env_t e,myth_thread
   myth_spin_unlock_body(&th->sanity_check);
 #endif
   //Add to a freelist
+  MYTH_VERIF_EV2("DescFree", e->rank, VD(th));
   myth_freelist_push(&e->freelist_desc,(void*)th);
 #else
   myth_assert(th);
@@ -304,9 +310,11 @@ static inline void free_myth_thread_struct_stack(myth_running_env_t e,myth_threa
 
     uintptr_t *blk_size = (uintptr_t*)(((uint8_t*)ptr) + sizeof(void*));
     if (*blk_size == 0) {
+      MYTH_VERIF_EV4("StackFree", e->rank, VS(ptr), 0, 0);
       myth_freelist_push(&e->freelist_stack, ptr);
     } else {
       void *stack_start=(((uint8_t*)ptr)-(*blk_size)+(sizeof(void*)*2));
+      MYTH_VERIF_EV4("StackFree", e->rank, VS(ptr), 2, MYTH_MALLOC_SIZE_TO_INDEX(*blk_size));
       myth_flfree(e->rank,(size_t)(*blk_size),stack_start);
     }
   }
@@ -330,6 +338,7 @@ MYTH_CTX_CALLBACK void myth_create_1(void *arg1,void *arg2,void *arg3) {
   myth_thread_t this_thread = env->this_thread;
   myth_func_t fn = (myth_func_t)arg2;
   t0 = 0; t1 = 0;
+  MYTH_VERIF_EV2("CbEnter", 1, ((long)__builtin_frame_address(0) & 15));
 #if MYTH_CREATE_PROF_DETAIL
   t1 = myth_get_rdtsc();
   env->prof_data.create_switch += t1 - env->prof_data.create_d_tmp;
@@ -453,6 +462,8 @@ static inline int myth_create_ex_body(myth_thread_t * id,
 #if MYTH_CREATE_PROF_DETAIL
     env->prof_data.create_d_tmp = myth_get_rdtsc();
 #endif /* MYTH_CREATE_PROF_DETAIL */
+    MYTH_VERIF_POINT(20);
+    MYTH_VERIF_EV5("CreateCF", VD(this_thread), VD(new_thread), VS(new_thread->stack), (attr ? attr->detachstate : 0), custom_data_size);
     myth_swap_context_withcall(&this_thread->context,
 			       &new_thread->context,
 			       myth_create_1,
@@ -473,6 +484,7 @@ static inline int myth_create_ex_body(myth_thread_t * id,
 #endif /* MYTH_CREATE_PROF */
 
     //Push a new thread to runqueue
+    MYTH_VERIF_EV5("CreatePF", VD(env->this_thread), VD(new_thread), VS(new_thread->stack), (attr ? attr->detachstate : 0), custom_data_size);
     myth_queue_push(&env->runnable_q, new_thread);
 #if MYTH_CREATE_PROF
     t1 = myth_get_rdtsc();
@@ -503,9 +515,11 @@ static inline void myth_exit_body(void *ret) {
 
 static inline void myth_join_1(myth_running_env_t e,myth_thread_t th,void **result)
 {
+  MYTH_VERIF_POINT(21);
   if (result!=NULL){
     *result=th->result;
   }
+  MYTH_VERIF_EV2("JoinReap", VD(th), (long)th->result);
   free_myth_thread_struct_desc(e,th);
 }
 
@@ -513,11 +527,15 @@ MYTH_CTX_CALLBACK void myth_join_2(void *arg1,void *arg2,void *arg3)
 {
   myth_running_env_t env=arg1;
   myth_thread_t th=arg2,next_thread=arg3;
+  MYTH_VERIF_EV2("CbEnter", 4, ((long)__builtin_frame_address(0) & 15));
   //Set join target
+  MYTH_VERIF_EV2("JoinSet", VD(th), VD(env->this_thread));
   myth_desc_join_set(th,env->this_thread);
+  MYTH_VERIF_POINT(22);
   myth_spin_unlock_body(&th->lock);
   //Change current running thread
   env->this_thread=next_thread;
+  MYTH_VERIF_EV0("CbExit");
   //myth_log_add(env,MYTH_LOG_USER);
 }
 
@@ -525,10 +543,14 @@ MYTH_CTX_CALLBACK void myth_join_3(void *arg1,void *arg2,void *arg3)
 {
   myth_thread_t this_thread=arg1,th=arg2;
   (void)arg3;
+  MYTH_VERIF_EV2("CbEnter", 5, ((long)__builtin_frame_address(0) & 15));
   //Set join target
+  MYTH_VERIF_EV2("JoinSet", VD(th), VD(this_thread));
   myth_desc_join_set(th,this_thread);
   //Change current running thread
+  MYTH_VERIF_POINT(22);
   myth_spin_unlock_body(&th->lock);
+  MYTH_VERIF_EV0("CbExit");
 }
 
 //Wait until the finish of a thread
@@ -584,7 +606,9 @@ static inline int myth_join_body(myth_thread_t th,void **result) {
   }
 #endif
   //Obtain lock and check again
+  MYTH_VERIF_POINT(23);
   myth_spin_lock_body(&th->lock);
+  MYTH_VERIF_EV3("JoinChk", VD(this_thread), VD(th), myth_desc_is_finished(th));
   //If target is finished, return
   if (myth_desc_is_finished(th)){
 #if MYTH_DEBUG_JOIN_FCC
@@ -595,6 +619,7 @@ static inline int myth_join_body(myth_thread_t th,void **result) {
 #if MYTH_JOIN_DEBUG
     myth_dprintf("myth_join:join thread (%p) is already finished. Return immediately\n",th);
 #endif
+    MYTH_VERIF_POINT(24);
     myth_spin_unlock_body(&th->lock);
     while (th->status != MYTH_STATUS_FREE_READY2);
 #if MYTH_JOIN_PROF_DETAIL
@@ -618,6 +643,8 @@ static inline int myth_join_body(myth_thread_t th,void **result) {
     return 0;
   }
   //Set current thread as blocked
+  MYTH_VERIF_POINT(25);
+  MYTH_VERIF_EV1("SetBlocked", VD(this_thread));
   myth_desc_set_not_runnable(this_thread);
 #if MYTH_JOIN_DEBUG
   myth_dprintf("myth_join:%p is added to %p's waiting list\n",this_thread,th);
@@ -686,15 +713,19 @@ static inline int myth_tryjoin_body(myth_thread_t th,void **result) {
   myth_running_env_t env;
   env = myth_get_current_env();
   //Obtain lock and check again
+  MYTH_VERIF_POINT(30);
   myth_spin_lock_body(&th->lock);
+  MYTH_VERIF_EV3("TryJoinChk", VD(env->this_thread), VD(th), myth_desc_is_finished(th));
   //If target is finished, return
   if (myth_desc_is_finished(th)){
+    MYTH_VERIF_POINT(31);
     myth_spin_unlock_body(&th->lock);
     while (th->status != MYTH_STATUS_FREE_READY2) { }
     myth_join_1(env,th,result);
     //myth_log_add(env,MYTH_LOG_USER);
     return 0;
   } else {
+    MYTH_VERIF_POINT(31);
     myth_spin_unlock_body(&th->lock);
     return EBUSY;
   }
@@ -855,20 +886,26 @@ static inline int myth_create_join_many_ex_body(myth_thread_t * ids,
 
 static inline int myth_detach_body(myth_thread_t th)
 {
+  MYTH_VERIF_POINT(32);
+  MYTH_VERIF_EV2("DetachQuick", VD(th), th->status==MYTH_STATUS_FREE_READY2);
   if (th->status==MYTH_STATUS_FREE_READY2){
     //If a thread is finished, just release resource
     free_myth_thread_struct_desc(myth_get_current_env(),th);
     return 0;
   }
   //Obtain lock
+  MYTH_VERIF_POINT(33);
   myth_spin_lock_body(&th->lock);
+  MYTH_VERIF_EV2("DetachChk", VD(th), myth_desc_is_finished(th));
   if (myth_desc_is_finished(th)){//If a thread is finished, release resource
     myth_spin_unlock_body(&th->lock);
     while (th->status!=MYTH_STATUS_FREE_READY2);
     free_myth_thread_struct_desc(myth_get_current_env(),th);
   }
   else{//Set a thread as detached
+    MYTH_VERIF_EV1("SetDetached", VD(th));
     myth_desc_set_detached(th);
+    MYTH_VERIF_POINT(34);
     myth_spin_unlock_body(&th->lock);
   }
   return 0;
@@ -958,10 +995,12 @@ MYTH_CTX_CALLBACK void myth_yield_ex_1(void * arg1, void * arg2, void * arg3) {
   myth_running_env_t env = arg1;
   myth_thread_t this_thread = arg2;
   myth_thread_t next_thread = arg3;
+  MYTH_VERIF_EV2("CbEnter", 6, ((long)__builtin_frame_address(0) & 15));
   //Push current thread to the tail of runqueue
   myth_queue_put(&env->runnable_q, this_thread);
   env->this_thread = next_thread;
   next_thread->env = env;
+  MYTH_VERIF_EV0("CbExit");
 }
 
 //Yield execution to next runnable thread
@@ -1075,6 +1114,7 @@ static void __attribute__((unused)) myth_entry_point(void)
   uint64_t t0,t1;
   t0=myth_get_rdtsc();
 #endif
+  MYTH_VERIF_EV1("ThreadEntry", ((long)__builtin_frame_address(0) & 15));
   env=myth_get_current_env();
   this_thread=env->this_thread;
 #if MYTH_ENTRY_POINT_PROF
@@ -1096,12 +1136,14 @@ MYTH_CTX_CALLBACK void myth_entry_point_1(void *arg1,void *arg2,void *arg3)
   myth_running_env_t env = arg1;
   myth_thread_t this_thread = arg2, next_thread = arg3;
   t0 = 0; t1 = 0;
+  MYTH_VERIF_EV2("CbEnter", 2, ((long)__builtin_frame_address(0) & 15));
 #if MYTH_EP_PROF_DETAIL
   t1 = myth_get_rdtsc();
   env->prof_data.ep_switch += t1-env->prof_data.ep_d_tmp;
   t0 = myth_get_rdtsc();
 #endif
   free_myth_thread_struct_stack(env,this_thread);
+  MYTH_VERIF_EV2("FinDet", VD(this_thread), this_thread->detached);
   if (this_thread->detached){
     //The thread is detached. Release resource
 #if MYTH_ENTRY_POINT_DEBUG
@@ -1116,11 +1158,15 @@ MYTH_CTX_CALLBACK void myth_entry_point_1(void *arg1,void *arg2,void *arg3)
     myth_spin_unlock_body(&this_thread->lock);
     this_thread->status = MYTH_STATUS_FREE_READY2;
 #else
+    MYTH_VERIF_POINT(26);
+    MYTH_VERIF_EV1("Publish", VD(this_thread));
     this_thread->status=MYTH_STATUS_FREE_READY2;
+    MYTH_VERIF_POINT(27);
     myth_spin_unlock_body(&this_thread->lock);
 #endif
   }
   env->this_thread = next_thread;
+  MYTH_VERIF_EV0("CbExit");
 #if MYTH_EP_PROF_DETAIL
   t1=myth_get_rdtsc();
   env->prof_data.ep_join+=t1-t0;
@@ -1145,12 +1191,14 @@ MYTH_CTX_CALLBACK void myth_entry_point_2(void *arg1,void *arg2,void *arg3)
   myth_thread_t this_thread=arg2;
   (void)arg3;
   t0=0;t1=0;
+  MYTH_VERIF_EV2("CbEnter", 3, ((long)__builtin_frame_address(0) & 15));
 #if MYTH_EP_PROF_DETAIL
   t1=myth_get_rdtsc();
   env->prof_data.ep_switch+=t1-env->prof_data.ep_d_tmp;
   t0=myth_get_rdtsc();
 #endif
   free_myth_thread_struct_stack(env,this_thread);
+  MYTH_VERIF_EV2("FinDet", VD(this_thread), this_thread->detached);
   if (this_thread->detached){
     //The thread is detached. Release resource
 #if MYTH_ENTRY_POINT_DEBUG
@@ -1165,10 +1213,14 @@ MYTH_CTX_CALLBACK void myth_entry_point_2(void *arg1,void *arg2,void *arg3)
     myth_spin_unlock_body(&this_thread->lock);
     this_thread->status=MYTH_STATUS_FREE_READY2;
 #else
+    MYTH_VERIF_POINT(26);
+    MYTH_VERIF_EV1("Publish", VD(this_thread));
     this_thread->status=MYTH_STATUS_FREE_READY2;
+    MYTH_VERIF_POINT(27);
     myth_spin_unlock_body(&this_thread->lock);
 #endif
   }
+  MYTH_VERIF_EV0("CbExit");
 #if MYTH_EP_PROF_DETAIL
   t1=myth_get_rdtsc();
   env->prof_data.ep_join+=t1-t0;
@@ -1207,8 +1259,10 @@ static inline void myth_entry_point_cleanup(myth_thread_t this_thread) {
   env->prof_data.ep_cycles_tmp = t2;
 #endif
   this_thread_v = this_thread;
+  MYTH_VERIF_POINT(28);
   myth_spin_lock_body(&this_thread->lock);
   myth_thread_t wait_thread = this_thread_v->join_thread;
+  MYTH_VERIF_EV2("FinWaiter", VD(this_thread), VD(wait_thread));
   //Execute a thread waiting for current thread
   if (wait_thread){
 #if MYTH_DEBUG_JOIN_FCC
